@@ -207,6 +207,7 @@ namespace pika {
         {
             // wait for thread to be terminated
             detail::unlock_guard ul(l);
+            PIKA_VERIF_POINT("join.registered", this, 0, 0);
             this_thread::suspend(threads::detail::thread_schedule_state::suspended, "thread::join");
         }
 
